@@ -24,9 +24,9 @@ MANIFEST = {
              'C15_table_composable_sound / C15_table_unity_sound against the regenerated table (declaring mean composable breaks the proof with no input); '
              'C15_skipna_ignores_missing / _all_missing / C15_noskip_propagates_or_rejects; C15_argminmax_refinement + C15_argminmax_first_extreme (first position of the extreme value) + C15_loc_is_label_at_iloc; '
              'C15_cum_keeps_shape / C15_cum_refinement; C15_layout_independent. Refuted/C15.v: four vm_compute witnesses where the faithful M leaves S (known findings). '
-             'Correspondence: public Frame calls (every function x axis x skipna x ddof, every block layout of every int/float/bool kind tuple up to width 2 plus eight tuples of width 3 (quick) / up to width 3 plus ten tuples of width 4 (thorough), '
+             'Correspondence: public Frame calls (every function x axis x skipna x ddof, every block layout of every int/float/bool kind tuple up to width 2 plus six tuples of width 3 (quick) / up to width 3 plus ten tuples of width 4 (thorough), '
              '0- and 1-sized axes, random wider frames, labels of the result), TypeBlocks.ufunc_axis_skipna called directly with the flag combinations container.py never passes, '
-             'Series reductions against the one-line spec, string / datetime frames against their per-line Series, all evaluated inside Coq by vm_compute (M and S) on the observed inputs.'),
+             'Series and Index reductions against the one-line spec, string / datetime frames against their per-line Series, all evaluated inside Coq by vm_compute (M and S) on the observed inputs.'),
     'note': ('trusted: Coq kernel; the hand-written model M (tied to the code by the differential runs of this run and by the regenerated table); the harness; NumPy itself as the oracle of '
              'the one-line functions (np.sum/np.nanmin/... on ONE 1-D or 2-D array are assumed to compute the mathematical function; S is the independent statement of that function and every '
              'case checks the implementation against it). Float results: an exactly representable result must be reproduced bit for bit, otherwise to 2^-40 relative (NumPy rounding and summation '
@@ -42,9 +42,9 @@ REFUTED_FILES = ['Refuted/C15.v']
 MODEL_FILES = ['SF/Reduce.v', 'Gen/Gen_c15_table.v']
 IMPORTS = ('Require Import SF.Prelude SF.Value SF.Dtype SF.Reduce Gen.Gen_c15_table.\n'
            'From Coq Require Import QArith.\nLocal Open Scope Z_scope.')
-RULE = ('api:reduce-all-layouts: every kind tuple over {int64,float64(NaN),bool} up to width 2 + 8 tuples of width 3 (quick) / all up to width 3 + 10 tuples of width 4 (thorough) x EVERY block layout x 10 functions x 2 axes x skipna on/off, fixed data with NaN; '
+RULE = ('api:reduce-all-layouts: every kind tuple over {int64,float64(NaN),bool} up to width 2 + 6 tuples of width 3 (quick) / all up to width 3 + 10 tuples of width 4 (thorough) x EVERY block layout x 10 functions x 2 axes x skipna on/off, fixed data with NaN; '
         'api:reduce-small-axes: 0 and 1 rows x 0..2(3) columns x every layout, and 0 columns x 2,3 rows; api:reduce-numeric / api:argminmax / api:cumulative: random frames (1-5 columns, 1-8 rows, values in {-3..4, .5, NaN}, random layout, ddof in {-1,0,1,2,3}); '
-        'kernel: TypeBlocks.ufunc_axis_skipna with composable and size_one_unity both ways; api:series-reduce: one column as a Series; api:parity-str-datetime: every layout of 1-2(3) string / datetime64 columns; api:malformed-axis: axis 2,3 must raise; '
+        'kernel: TypeBlocks.ufunc_axis_skipna with composable and size_one_unity both ways; api:series-reduce / api:index-reduce: one column as a Series, the labels of an Index; api:parity-str-datetime: every layout of 1-2(3) string / datetime64 columns; api:malformed-axis: axis 2,3 must raise; '
         'api:known-witness: one fixed input per known finding. A case is non-trivial when the frame has several blocks or several rows (kernel: when a flag differs from container.py); distinct = distinct (call, data, layout).')
 ASSUMPTIONS = ['a NumPy reduction of ONE array along an axis computes the mathematical function of each line (oracle; every case re-checks it against S)',
                'util.resolve_dtype on the generated dtypes: equal kinds stay, int64+float64 -> float64, bool with int/float -> object (row_kind in SF/Reduce.v)',
@@ -357,7 +357,7 @@ _FIXED = {   # deterministic columns per kind, 4 rows; a NaN in the float column
 }
 
 
-_QUICK_W3 = {('i', 'f', 'f'), ('f', 'f', 'f'), ('b', 'b', 'b'), ('i', 'i', 'f'), ('f', 'i', 'i'), ('f', 'b', 'i'), ('b', 'f', 'f'), ('i', 'i', 'i')}
+_QUICK_W3 = {('i', 'f', 'f'), ('f', 'f', 'f'), ('b', 'b', 'b'), ('i', 'i', 'f'), ('f', 'b', 'i'), ('b', 'f', 'f')}
 
 
 _THOROUGH_W4 = {('f', 'f', 'f', 'f'), ('i', 'i', 'i', 'i'), ('b', 'b', 'b', 'b'), ('i', 'f', 'f', 'i'), ('f', 'i', 'i', 'f'), ('i', 'i', 'f', 'f'),
@@ -654,6 +654,40 @@ def series_cases(ctx):
                        s=term, tags=tags, nontrivial=r > 1)
 
 
+def index_cases(ctx):
+    """Index reductions (index.py: the labels of a flat index reduced like one line): against the one-line specification"""
+    import static_frame as sf
+    rng = ctx.rng
+    for _ in range(ctx.n(12, 120)):
+        r = rng.choice((1, 2, 3, 4, 6))
+        if rng.random() < .5:
+            labels = rng.sample(range(-6, 9), r)
+            c = np.array(labels, dtype=np.int64)
+        else:
+            labels = rng.sample([-2., -1., 0., .5, 1., 2., 3., 4.5], r)
+            c = np.array(labels, dtype=np.float64)
+        idx = (sf.IndexGO if rng.random() < .3 else sf.Index)(c)
+        skipna = rng.random() < .5
+        ddof = rng.choice((0, 1))
+        for fn in FUNCS:
+            kw = {'skipna': skipna}
+            if fn in ('std', 'var'):
+                kw['ddof'] = ddof
+            got = _try(lambda: getattr(idx, fn)(**kw))
+            if isinstance(got, Exception):
+                obs, seen = f'(Err {lit.s(lit.err_class(got))})', ('ERR', type(got).__name__)
+            else:
+                try:
+                    obs, seen = f'(Ok {lit.val(got)})', _j(got)
+                except ValueError:
+                    obs, seen = f'(Ok {lit.val("<unprintable>")})', repr(got)
+            ctx.count(f'index:fn:{fn}')
+            yield Case('api:index-reduce', {'call': f'{type(idx).__name__}.{fn}({", ".join(f"{a}={b}" for a, b in kw.items())})',
+                                            'labels': _j(c.tolist()), 'dtype': str(c.dtype), 'observed': seen},
+                       s=f'check_series {COQ_F[fn]} {lit.b(skipna)} {lit.z(ddof)} {lit.vlist(lit.array_vals(c))} {obs}',
+                       tags={'fn': fn, 'skipna': skipna, 'index': True}, nontrivial=r > 1)
+
+
 def cases(ctx):
     yield from known_witnesses(ctx)
     yield from api_all_layouts(ctx)
@@ -662,4 +696,5 @@ def cases(ctx):
     yield from api_malformed(ctx)
     yield from kernel_cases(ctx)
     yield from series_cases(ctx)
+    yield from index_cases(ctx)
     yield from api_numeric(ctx)
